@@ -1,0 +1,6 @@
+//go:build !verif
+
+package utils
+
+// VerifYield is a no-op outside verification builds (build tag verif).
+func VerifYield(string) {}
